@@ -160,3 +160,72 @@ package signing
 //@   loop 1 invariant sent(errChs) == 0 ==> (forall k in 0..sgN(round) :: (k != i ==> (alphas[k] != nil && us[k] != nil && fresh(alphas[k]) && fresh(us[k]))))
 //@   loop 2 invariant sg3Elems(round) && round.started && thelta != nil && sigma != nil && modN != nil && !fresh(modN) && val(modN) == secpN && len(alphas) == sgN(round) && len(us) == sgN(round) && sent(round.out) == old(sent(round.out))
 //@   loop 2 invariant forall k in 0..sgN(round) :: (k != sgI(round) ==> (alphas[k] != nil && us[k] != nil && fresh(alphas[k]) && fresh(us[k])))
+
+// round_2.go: Bob's side of both MtA runs towards every peer j.
+//@ define sg1m1slot(m) = (!isnil(m) && istype(msgcontent(m), "*ecdsa/signing.SignRound1Message1") && cast(msgcontent(m), "*ecdsa/signing.SignRound1Message1") != nil)
+//@ define ecSignKeySizes(round) = (forall k in 0..sgN(round) :: (bitlen(val(round.key.PaillierPKs[k].N)) <= 4096 && val(round.key.NTildej[k]) > 0 && bitlen(val(round.key.NTildej[k])) <= 3000))
+//@ func (*SignRound1Message1).UnmarshalC
+//@   props C06
+//@   requires m != nil
+//@   ensures result != nil && fresh(result) && val(result) >= 0
+//@ func (*SignRound1Message1).UnmarshalRangeProofAlice
+//@   props C06 C10
+//@   requires m != nil
+//@   ensures result1 != nil ==> result0 == nil
+//@   ensures result1 == nil ==> (result0 != nil && fresh(result0) && wfAlice(result0))
+
+//@ func (*round2).Start$1
+//@   props C06 C05 C13
+//@   requires round != nil && round.round1 != nil && round.round1.base != nil
+//@   requires ecSignWF(round)
+//@   requires ecSignKey(round)
+//@   requires ecSignKeySizes(round)
+//@   requires sgSep(round) && sgSepW(round)
+//@   requires 0 <= j && j < sgN(round) && j != sgI(round) && i == sgI(round) && errChs != nil && Pj != nil && round.temp.gamma != nil
+//@   requires sg1m1slot(round.temp.signRound1Message1s[j])
+//@   requires len(ContextI) <= 1048576
+//@   modifies round.temp.betas[*], round.temp.c1jis[*], round.temp.pi1jis[*], sent(errChs)
+//@   ensures [C05.no-error-means-a-response] sent(errChs) == old(sent(errChs)) ==> (round.temp.betas[j] != nil && round.temp.c1jis[j] != nil && round.temp.pi1jis[j] != nil)
+//@   ensures (forall k in 0..sgN(round) :: (k != j ==> (round.temp.betas[k] == old(round.temp.betas[k]) && round.temp.c1jis[k] == old(round.temp.c1jis[k]) && round.temp.pi1jis[k] == old(round.temp.pi1jis[k]))))
+//@   ensures sent(errChs) == old(sent(errChs)) || sent(errChs) == old(sent(errChs)) + 1
+//@   ensures [C05.blame-is-exactly-the-sender-of-the-failing-message] sent(errChs) == old(sent(errChs)) + 1 ==> (errAt(errChs, old(sent(errChs))) != nil && len(errAt(errChs, old(sent(errChs))).culprits) == 1 && errAt(errChs, old(sent(errChs))).culprits[0] == Pj && allocated(errAt(errChs, old(sent(errChs)))) && allocated(arr(errAt(errChs, old(sent(errChs))).culprits)))
+//@   ensures [earlier-errors-stay] forall m in 0..old(sent(errChs)) :: sentv(errChs, m) == old(sentv(errChs, m))
+//@ func (*round2).Start$2
+//@   props C06 C05 C13
+//@   requires round != nil && round.round1 != nil && round.round1.base != nil
+//@   requires ecSignWF(round)
+//@   requires ecSignKey(round)
+//@   requires ecSignKeySizes(round)
+//@   requires sgSep(round) && sgSepW(round)
+//@   requires 0 <= j && j < sgN(round) && j != sgI(round) && i == sgI(round) && errChs != nil && Pj != nil && round.temp.w != nil
+//@   requires round.temp.bigWs[sgI(round)] != nil ==> validPoint(round.temp.bigWs[sgI(round)])
+//@   requires sg1m1slot(round.temp.signRound1Message1s[j])
+//@   requires len(ContextI) <= 1048576
+//@   modifies round.temp.vs[*], round.temp.c2jis[*], round.temp.pi2jis[*], sent(errChs)
+//@   ensures [C05.no-error-means-a-response] sent(errChs) == old(sent(errChs)) ==> (round.temp.vs[j] != nil && round.temp.c2jis[j] != nil && round.temp.pi2jis[j] != nil)
+//@   ensures (forall k in 0..sgN(round) :: (k != j ==> (round.temp.vs[k] == old(round.temp.vs[k]) && round.temp.c2jis[k] == old(round.temp.c2jis[k]) && round.temp.pi2jis[k] == old(round.temp.pi2jis[k]))))
+//@   ensures sent(errChs) == old(sent(errChs)) || sent(errChs) == old(sent(errChs)) + 1
+//@   ensures [C05.blame-is-exactly-the-sender-of-the-failing-message] sent(errChs) == old(sent(errChs)) + 1 ==> (errAt(errChs, old(sent(errChs))) != nil && len(errAt(errChs, old(sent(errChs))).culprits) == 1 && errAt(errChs, old(sent(errChs))).culprits[0] == Pj && allocated(errAt(errChs, old(sent(errChs)))) && allocated(arr(errAt(errChs, old(sent(errChs))).culprits)))
+//@   ensures [earlier-errors-stay] forall m in 0..old(sent(errChs)) :: sentv(errChs, m) == old(sentv(errChs, m))
+
+// the temp result slices are separate from each other and from the key data lists
+//@ define sgSep(round) = (arr(round.temp.betas) != arr(round.temp.c1jis) && arr(round.temp.betas) != arr(round.temp.vs) && arr(round.temp.betas) != arr(round.temp.c2jis) && arr(round.temp.betas) != arr(round.temp.cis) && arr(round.temp.c1jis) != arr(round.temp.vs) && arr(round.temp.c1jis) != arr(round.temp.c2jis) && arr(round.temp.c1jis) != arr(round.temp.cis) && arr(round.temp.vs) != arr(round.temp.c2jis) && arr(round.temp.vs) != arr(round.temp.cis) && arr(round.temp.c2jis) != arr(round.temp.cis) && arr(round.temp.pi1jis) != arr(round.temp.pi2jis) && arr(round.key.NTildej) != arr(round.temp.betas) && arr(round.key.NTildej) != arr(round.temp.c1jis) && arr(round.key.NTildej) != arr(round.temp.vs) && arr(round.key.NTildej) != arr(round.temp.c2jis) && arr(round.key.H1j) != arr(round.temp.betas) && arr(round.key.H1j) != arr(round.temp.c1jis) && arr(round.key.H1j) != arr(round.temp.vs) && arr(round.key.H1j) != arr(round.temp.c2jis) && arr(round.key.H2j) != arr(round.temp.betas) && arr(round.key.H2j) != arr(round.temp.c1jis) && arr(round.key.H2j) != arr(round.temp.vs) && arr(round.key.H2j) != arr(round.temp.c2jis))
+// the slices written by round 2 do not overlay the coordinate pair of the own weighted public share
+//@ define sgSepW(round) = (round.temp.bigWs[sgI(round)] != nil ==> (arr(round.temp.betas) != arr(round.temp.bigWs[sgI(round)].coords) && arr(round.temp.c1jis) != arr(round.temp.bigWs[sgI(round)].coords) && arr(round.temp.vs) != arr(round.temp.bigWs[sgI(round)].coords) && arr(round.temp.c2jis) != arr(round.temp.bigWs[sgI(round)].coords)))
+//@ define sg2Elems(round) = ((forall k in 0..sgN(round) :: (round.key.NTildej[k] != nil && round.key.H1j[k] != nil && round.key.H2j[k] != nil)) && ecSignKeySizes(round))
+//@ func (*round2).Start
+//@   props C06 C05 C01
+//@   requires round != nil && round.round1 != nil && round.round1.base != nil && ecSignWF(round) && ecSignKey(round) && ecSignKeySizes(round) && sgSep(round) && sgSepW(round)
+//@   requires [round-1-complete] forall j in 0..sgN(round) :: (j != sgI(round) ==> sg1m1slot(round.temp.signRound1Message1s[j]))
+//@   requires [own-round-1-values] round.temp.gamma != nil && round.temp.w != nil && len(round.temp.ssid) <= 4096 && cap(round.temp.ssid) == len(round.temp.ssid) && (round.temp.bigWs[sgI(round)] != nil ==> validPoint(round.temp.bigWs[sgI(round)]))
+//@   modifies round.number, round.started, round.ok[*], round.temp.betas[*], round.temp.c1jis[*], round.temp.pi1jis[*], round.temp.vs[*], round.temp.c2jis[*], round.temp.pi2jis[*], sent(round.out)
+//@   ensures [C05.an-mta-failure-blames-only-peers-never-the-party-itself] (result != nil && !old(round.started)) ==> (len(result.culprits) > 0 && (forall c in 0..len(result.culprits) :: peerOf(round, result.culprits[c])))
+//@   ensures [C01.nothing-sent-on-error] result != nil ==> sent(old(round.out)) == old(sent(round.out))
+//@   loop 0 invariant (round.temp.bigWs[sgI(round)] != nil ==> validPoint(round.temp.bigWs[sgI(round)])) && !closed(errChs) && sg2Elems(round) && round.started && errChs != nil && fresh(errChs) && recvd(errChs) == 0 && 0 <= sent(errChs) && i == sgI(round) && sent(round.out) == old(sent(round.out)) && errChs != round.out && len(ContextI) <= 4104
+//@   loop 0 invariant forall m in 0..sent(errChs) :: errBlamesPeer(round, errChs, m)
+//@   loop 0 invariant sent(errChs) == 0 ==> (forall k in 0..$iter :: (k != i ==> (round.temp.c1jis[k] != nil && round.temp.pi1jis[k] != nil && round.temp.c2jis[k] != nil && round.temp.pi2jis[k] != nil)))
+//@   loop 1 invariant (sent(errChs) == 0 ==> (forall k in 0..sgN(round) :: (k != i ==> (round.temp.c1jis[k] != nil && round.temp.pi1jis[k] != nil && round.temp.c2jis[k] != nil && round.temp.pi2jis[k] != nil)))) && sg2Elems(round) && round.started && errChs != nil && 0 <= recvd(errChs) && recvd(errChs) <= sent(errChs) && fresh(culprits) && i == sgI(round) && sent(round.out) == old(sent(round.out)) && errChs != round.out
+//@   loop 1 invariant (recvd(errChs) > 0 ==> len(culprits) > 0) && (sent(errChs) == 0 ==> len(culprits) == 0)
+//@   loop 1 invariant forall m in 0..sent(errChs) :: (errBlamesPeer(round, errChs, m) && arr(errAt(errChs, m).culprits) != arr(culprits))
+//@   loop 1 invariant forall c in 0..len(culprits) :: peerOf(round, culprits[c])
+//@   loop 2 invariant round.started && i == sgI(round) && (forall k in 0..sgN(round) :: (k != i ==> (round.temp.c1jis[k] != nil && round.temp.pi1jis[k] != nil && round.temp.c2jis[k] != nil && round.temp.pi2jis[k] != nil)))
